@@ -790,7 +790,8 @@ def _validate(
                 if rate is None:
                     rate = result
                 else:
-                    rate += result
+                    # not ``+=``: for a zero-order term ``rate`` is the caller's own object
+                    rate = rate + result
         rates[k] = rate
         seen |= set([s.name for s in expr.free_symbols])
     if check_conditions_no_extra:
